@@ -492,6 +492,12 @@ class CharVec:
             raise PathEnd("panic", "index out of bounds")
         return Ref(CharSlot(self, idx), ())
 
+    def get(self, I, idx):
+        """chars.get(i) / get_mut(i): None past the end, otherwise the slot"""
+        if I.truth(I.binop("Ge", idx, self.length(I), "usize")):
+            return none()
+        return some(Ref(CharSlot(self, idx), ()))
+
     def into_iter(self, I):
         return CharVecIt(self)
 
